@@ -405,13 +405,24 @@ pub fn int_to_key(v: i128, enc: u8) -> tera::value::Key<'static> {
     }
 }
 
+/// identifier-like names available as `&'static str` so that borrowed keys (`Key::Str`) can be built
+pub const STATIC_KEYS: &[&str] = &["a", "b", "c", "d", "e", "k", "key", "id", "name", "x", "y", "z", "u", "v", "n", "t", "k1", "k2", "k3", "k4", "k5", "k6", "k7", "k8", "val", "body", "title", "0", "1", "", "A", "é"];
+
 pub fn key_to_tera(k: &MKey, enc: &Enc) -> tera::value::Key<'static> {
     use tera::value::Key;
     match k {
         MKey::Bool(b) => Key::Bool(*b),
         MKey::Int(i) => int_to_key(*i, enc.pick(*i)),
         MKey::Big(b) => Key::U128(*b),
-        MKey::Str(s) => Key::from(s.clone()),
+        MKey::Str(s) => {
+            // owned or borrowed spelling of the same key
+            if enc.salt != 0 && enc.next() & 1 == 1 {
+                if let Some(st) = STATIC_KEYS.iter().find(|x| **x == s.as_str()) {
+                    return Key::Str(st);
+                }
+            }
+            Key::from(s.clone())
+        }
     }
 }
 
@@ -435,8 +446,15 @@ pub fn to_tera_enc(v: &MVal, enc: &Enc) -> tera::Value {
         MVal::Array(a) => V::from(a.iter().map(|x| to_tera_enc(x, enc)).collect::<Vec<_>>()),
         MVal::Map(m) => {
             let mut out = tera::Map::new();
-            for (k, v) in m {
-                out.insert(key_to_tera(k, enc), to_tera_enc(v, enc));
+            // insertion order varies with the salt (the engine's maps are hash maps: order must not matter)
+            if enc.salt != 0 && enc.next() & 1 == 1 {
+                for (k, v) in m.iter().rev() {
+                    out.insert(key_to_tera(k, enc), to_tera_enc(v, enc));
+                }
+            } else {
+                for (k, v) in m {
+                    out.insert(key_to_tera(k, enc), to_tera_enc(v, enc));
+                }
             }
             V::from(out)
         }
